@@ -2,6 +2,7 @@ import Proofs.C19
 import Proofs.C07Draw
 import Proofs.TieBasis
 import Proofs.DeclBasis
+import Proofs.TieLoopTail
 #print axioms PV.Proofs.C19.sample_bound
 #print axioms PV.Proofs.C19.clamp_contracts
 #print axioms PV.Proofs.C19.step_ratio_le_one
@@ -32,3 +33,6 @@ import Proofs.DeclBasis
 #print axioms PV.Proofs.Tie.clamped_tie
 #print axioms PV.Proofs.Tie.sample_tie
 #print axioms PV.Proofs.DeclBasis.declared_rot_symmetry
+#print axioms PV.Proofs.Tie.declared_translated_looptail
+#print axioms PV.Proofs.Tie.loop_tail_tie
+#print axioms PV.Proofs.Tie.loop_tail_frame
